@@ -111,6 +111,7 @@ func (s *Server) ServeConn(c net.Conn) error {
 
 	// What the client has not said yet is the protocol default.
 	sc.clientS.Reset()
+	sc.clientFrameSize = sc.clientS.MaxFrameSize()
 
 	sc.st.Reset()
 	sc.st.SetMaxWindowSize(uint32(sc.maxWindow))
